@@ -171,7 +171,7 @@ func newWorldG(chains map[string][]verdict, cfg *sio.ServerConfig, gated bool, g
 							// the middleware must be shown the event's name and its arguments
 							tag, _ := firstString(v)
 							nameOK := (tag == "t2" && eventName == "tevn") || (tag != "t2" && eventName == "tev")
-							vtrace.Emit("h.evmw", "sid", sid, "tag", tagOr(tag, v), "i", i+1, "nameOK", nameOK, "argsOK", len(v) >= 1, "reject", !acc)
+							vtrace.Emit("h.evmw", "sid", sid, "tag", tagOr(tag, v), "i", i+1, "chain", len(ch), "nameOK", nameOK, "argsOK", len(v) >= 1, "reject", !acc)
 							if !acc {
 								return fmt.Errorf("event refused")
 							}
@@ -183,6 +183,10 @@ func newWorldG(chains map[string][]verdict, cfg *sio.ServerConfig, gated bool, g
 						vtrace.Emit("h.evhandler", "sid", sid, "tag", tag, "chain", nch, "argsOK", n == 7)
 					})
 					s.OnEvent("tevn", func(n int, tag string) {
+						vtrace.Emit("h.evhandler", "sid", sid, "tag", tag, "chain", nch, "argsOK", n == 7)
+					})
+					// a second handler for the same event: the gate holds for every handler of a rejected event
+					s.OnceEvent("tev", func(tag string, n int) {
 						vtrace.Emit("h.evhandler", "sid", sid, "tag", tag, "chain", nch, "argsOK", n == 7)
 					})
 				}
@@ -669,10 +673,10 @@ func (e *env) c12events(ch []bool) {
 	}
 	want := 0
 	if accepted {
-		want = 3
+		want = 4 // t1 reaches two handlers (on + once), t2 and t3 one each
 	}
 	if handlers != want {
-		e.res.Violation("c12-event-gate", fmt.Sprintf("event middleware chain %v: %d of 3 events reached their handler (expected %d); %d middleware calls", ch, handlers, want, mws), id, ch)
+		e.res.Violation("c12-event-gate", fmt.Sprintf("event middleware chain %v: %d handler entries for 3 events (expected %d); %d middleware calls", ch, handlers, want, mws), id, ch)
 	}
 	m.Close()
 	w.waitDisconnects(3 * time.Second)
